@@ -227,7 +227,10 @@ func raiseIndexOutOfBounds(opts *options, value value, idx int) Error {
 
 func raiseInvalidTopLevelType(v interface{}, meta *Meta) Error {
 	// could be developers or user fault
-	t := chaseTypePointers(chaseValue(reflect.ValueOf(v)).Type())
+	var t interface{} = "nil"
+	if rv := chaseValue(reflect.ValueOf(v)); rv.IsValid() {
+		t = chaseTypePointers(rv.Type())
+	}
 	message := fmt.Sprintf("type '%v' is not supported on top level of config, only dictionary or list", t)
 	return raiseErr(ErrTypeMismatch, messageMeta(message, meta))
 }
